@@ -26,6 +26,8 @@ def configs(tier):
         (2, 3, 100, (0, 1, 2)), (3, 2, 3, (0, 1, 2)), (3, 3, 2, (0, 1)), (1, 4, 2, (0, 1, 2)), (4, 1, 3, (0, 1, 2)),
         (1, 1, 5, (0, 1)), (2, 2, 5, (0, 1, 2)), (1, 2, 100, (0, 1, 2)), (2, 1, 100, (0, 1, 2)), (2, 4, 3, (0, 1)),
         (3, 3, 5, (0, 2)),
+        # fewer bins than levels AND values 3 % apart: they separate at 100 levels, not at as many levels as there are bins
+        (2, 3, 100, (0, 93, 97, 100)),
     ]
     if tier == "quick":
         return quick
@@ -165,6 +167,22 @@ def run(ctx):
             ctx.violation({"where": "trace", "clause": clause, "shape": list(shape[:2]), "ihmax": shape[2], "e": c[3]},
                           "recorded execution of specpart.c rejected by WatershedTrace at clause '%s' (line %d)" % (clause, line),
                           {"case": c, "pair": pairflag[tid]})
+        # the same random grids through the Python extension (wrapper + routine): the label map must be the driver's, which the
+        # trace specification has just validated - whatever the wrapper does to its arguments on the way
+        def inproc2(cases=cases):
+            return [specpart.partition(np.array(c[3], dtype="float32").reshape(c[0], c[1]), c[2]).ravel().tolist() for c in cases]
+        kind2, pys2 = run_forked(inproc2)
+        if kind2 == "crash":
+            ctx.violation({"where": "native", "kind": "crash-in-extension"}, "the Python extension crashed on the random grids: %s" % pys2)
+        else:
+            for c, o, pp in zip(cases, res, pys2):
+                ctx.case(("tw",) + tuple(c[:3]) + tuple(c[3]), len(set(c[3])) > 1)
+                if list(o[0]) != pp:
+                    ctx.violation({"where": "replay", "via": "python-extension", "shape": list(c[:2]), "ihmax": c[2]},
+                                  "label map through the Python wrapper differs from the routine's own (validated) result",
+                                  {"input": c[3], "driver": list(o[0]), "python": pp})
+                else:
+                    ctx.replayed()
         ctx.note("traces_recorded", len(cases))
         ctx.note("skipped_by_rounding_tie_filter", skipped)
         if cases:
